@@ -134,6 +134,56 @@ let handle_m line fs impl =
   note_case "M-marshal-in-array" line;
   if expected <> impl then mismatch line expected
 
+(* a frame inside a Go container, marshalled and decoded back through encoding/json: the document
+   must carry exactly the JSON() text at the frame's position(s), and decoding it must give the
+   frame(s) back.  (That MarshalJSON is reachable for non-addressable values - i.e. has a value
+   receiver - is a fact about Go method sets, not expressible in the model; it is observed here.) *)
+let zs (s : string) : z list = List.init (String.length s) (fun i -> ztab.(Char.code s.[i]))
+
+let container_doc kind (j : z list) : (z list * int) option =
+  match kind with
+  | "value" | "pointer" | "iface" -> Some (j, 1)
+  | "struct" | "structptr" -> Some (zs "{\"f\":" @ j @ zs ",\"p\":" @ j @ zs "}", 2)
+  | "slice" | "ptrslice" -> Some (zs "[" @ j @ zs "]", 1)
+  | "map" -> Some (zs "{\"k\":" @ j @ zs "}", 1)
+  | "ifaceslice" -> Some (zs "[" @ j @ zs ",[" @ j @ zs "]]", 2)
+  | _ -> None
+
+let last_c : (string * (sres * (outcome * frame) option)) option ref = ref None
+
+let handle_c line kind fs doc res back =
+  let f = frame_of_string fs in
+  let m, dec =
+    match !last_c with
+    | Some (k, v) when k = fs -> v
+    | _ ->
+        let m = to_json f in
+        let dec = match m with S_ok j -> Some (unmarshal_json j zero_frame) | S_panic -> None in
+        last_c := Some (fs, (m, dec));
+        (m, dec)
+  in
+  note_case ("C-" ^ kind) line;
+  match (m, dec, container_doc kind (match m with S_ok j -> j | S_panic -> [])) with
+  | _, _, None -> failwith ("unknown container kind: " ^ line)
+  | S_panic, _, _ | _, None, _ ->
+      if doc <> "PANIC" then mismatch line "PANIC - -"
+  | S_ok _, Some (o, g), Some (d, n) ->
+      let canon = canonical_frame f in
+      let exp_doc = hex_of_bytes d in
+      let exp_back =
+        match o with
+        | Ok -> "ok " ^ String.concat "," (List.init n (fun _ -> string_of_frame g))
+        | Error -> "err -"
+        | Panic -> "panic -"
+      in
+      if canon && not (o = Ok && frame_eqb f g) then pfail line "model error: canonical frame does not round-trip";
+      if doc <> exp_doc then
+        pfail line
+          (Printf.sprintf "container %s: the document produced by encoding/json does not carry the JSON() text at the frame's position; expected %s" kind exp_doc)
+      else if res ^ " " ^ back <> exp_back then
+        pfail line
+          (Printf.sprintf "container %s: decoding the document back through encoding/json does not give the identical frame; expected %s" kind exp_back)
+
 let has_byte p s = List.exists p s
 
 let handle_d line doc sent res dst valid =
@@ -189,6 +239,7 @@ let handle line =
   | [ "U"; input; sent; res; dst ] -> handle_u line input sent res dst
   | [ "J"; f; impl; valid; same ] -> handle_j line f impl valid same
   | [ "M"; f; impl ] -> handle_m line f impl
+  | [ "C"; kind; f; doc; res; back ] -> handle_c line kind f doc res back
   | [ "D"; doc; sent; res; dst; valid ] -> handle_d line doc sent res dst valid
   | [ "E"; kind; doc; res; f ] -> handle_e line kind doc res f
   | [ "O-pu16"; s; r ] -> oracle line "O-ParseUint16" (string_of_pu (parse_uint (bytes_of_hex s) (z_of_int 16) (z_of_int 32))) r
